@@ -234,11 +234,11 @@ theorem C01_send_refused_takes_nothing (k : Kcp) (b : Bytes) (h : (send k b).ret
     · rename_i h1
       rw [if_neg h1] at h
       split
-      · rename_i h2; rw [if_pos h2] at h; exact absurd rfl h
+      · rfl
       · rename_i h2
         rw [if_neg h2] at h
         split
-        · rfl
+        · rename_i h3; rw [if_pos h3] at h; exact absurd rfl h
         · rename_i h3
           rw [if_neg h3] at h
           split
